@@ -212,10 +212,16 @@ def run_one(ch, focus, model, cfg, mode, policy, ref, out) -> str:
     try:
         with seams.attach(L):
             if mode[0] == "find_all":
-                for s in solver.solve():
-                    sols.append(tuple(int(x) for x in s))
-                    if len(sols) > 3 * len(ref) + 50:
-                        break
+                api = ch.choose(3, "api")  # the three public ways to enumerate
+                if api == 1:
+                    sols.extend(tuple(int(x) for x in s) for s in solver.find_all())
+                elif api == 2:
+                    solver.solve_all(lambda s: sols.append(tuple(int(x) for x in s)))
+                else:
+                    for s in solver.solve():
+                        sols.append(tuple(int(x) for x in s))
+                        if len(sols) > 3 * len(ref) + 50:
+                            break
             elif mode[0] == "partial":
                 it = solver.solve()
                 for _ in range(mode[1]):
